@@ -438,6 +438,7 @@ def run(rep):
     finally:
         tlc.cleanup(wd)
     rep.exhaustive = True
+    extra_histories(rep)
     # ---- T
     rng = random.Random(rep.seed * 7919 + 11)
     nt = 60 if rep.tier == "quick" else 1500
@@ -461,6 +462,11 @@ def run(rep):
 
 def replay(rep, path):
     r = json.load(open(path))["replay"]
+    if r.get("kind") == "extra":
+        extra_histories(rep)
+        rep.states, rep.transitions = 1, 1
+        rep.sample(r)
+        return rep.finish()
     ad = GroupAdapter() if r.get("container") == "grouped" else MsgAdapter(r.get("container", "generic"))
     h = ad.fresh()
     p = None
@@ -489,3 +495,93 @@ def replay(rep, path):
     rep.states, rep.transitions = max(rep.states, 1), max(rep.transitions, 1)
     rep.sample(r)
     return rep.finish()
+
+
+# ------------------------------------------------------------------------------------------- histories outside the model's alphabet
+def coherent(m):
+    """the invariant Coherent of spec/Message.tla evaluated on a real message: one name per listed position, every name refers
+    to a listed object, Message Length = size of the serialisation"""
+    lst = list(m.avps)
+    named = {k: v for k, v in vars(m).items() if "_avp" in k and k != "_avps"}
+    bad = []
+    if len(named) != len(lst):
+        bad.append(f"{len(named)} names for {len(lst)} listed AVPs")
+    for k, v in named.items():
+        if not any(v is a for a in lst):
+            bad.append(f"name {k} refers to an unlisted AVP")
+    for i, a in enumerate(lst):
+        n = sum(1 for v in named.values() if v is a)
+        want = sum(1 for b in lst if b is a)
+        if n != want:
+            bad.append(f"the AVP at position {i} has {n} name(s) for {want} occurrence(s) in the list")
+    raw = m.dump()
+    if m.header.get_length() != len(raw):
+        bad.append(f"Message Length {m.header.get_length()} != {len(raw)} serialised bytes")
+    return bad
+
+
+def extra_histories(rep):
+    """Operation sequences that the container model abstracts away, checked against its invariant directly:
+    (a) bulk update that renews the Session-Id in place (its size changes with the new Origin-Host);
+    (b) the same AVP object listed several times, then popped / replaced one name at a time;
+    (c) copy(): the copy is a coherent message of its own (its names refer to ITS AVPs)."""
+    from bromelia.base import DiameterMessage, DiameterRequest
+    from bromelia.avps import SessionIdAVP, OriginHostAVP, OriginRealmAVP, UserNameAVP, RouteRecordAVP, ProxyStateAVP
+    from bromelia.lib.ietf_rfc6733.messages import SessionTerminationRequest
+    from bromelia.constants import DIAMETER_LOGOUT
+    n = 0
+
+    def check(m, what, replay):
+        nonlocal n
+        n += 1
+        rep.case(("extra", what, n))
+        for b in coherent(m)[:2]:
+            rep.violation(f"{what}: {b}", replay)
+
+    # (a)
+    for host in ("a.b", "host.example", "a-much-longer-host-name.with.many.labels.example.org", "h" * 37 + ".x"):
+        for typed in (True, False):
+            try:
+                if typed:
+                    m = SessionTerminationRequest(destination_realm="example.org", auth_application_id=4, termination_cause=DIAMETER_LOGOUT,
+                                                  origin_host="first.example", origin_realm="example", user_name="u")
+                else:
+                    m = DiameterRequest(command_code=275, application_id=4)
+                    m.extend([SessionIdAVP(b"first.example;1;2"), OriginHostAVP("first.example"), OriginRealmAVP("example"), UserNameAVP("u")])
+                with guard(10, "update_avps"):
+                    m.update_avps({"origin_host": host})
+                check(m, f"update_avps(origin_host={host!r}) on a {'typed STR' if typed else 'generic request'} with a Session-Id", {"kind": "extra", "case": "renew", "host": host, "typed": typed})
+                m.append(ProxyStateAVP(b"x"))
+                m.pop("proxy_state_avp")
+                check(m, f"append / pop after update_avps(origin_host={host!r})", {"kind": "extra", "case": "renew", "host": host, "typed": typed})
+            except BaseException as e:
+                rep.violation(f"update_avps(origin_host={host!r}) raised {type(e).__name__}: {e}", {"kind": "extra", "case": "renew", "host": host, "typed": typed})
+    # (b)
+    for k in (2, 3):
+        for order in range(k):
+            m = DiameterRequest(command_code=272, application_id=4)
+            rr = RouteRecordAVP("relay.example")
+            m.append(UserNameAVP("u"))
+            m.extend(k * [rr])
+            check(m, f"extend({k} x the same object)", {"kind": "extra", "case": "same-object", "k": k, "order": order})
+            names = [kk for kk, v in vars(m).items() if v is rr]
+            for j in range(k):
+                key = sorted(names)[(order + j) % k]
+                m.pop(key)
+                check(m, f"extend({k} x the same object) then pop {j + 1} of its names", {"kind": "extra", "case": "same-object", "k": k, "order": order})
+    # (c)
+    for build in range(3):
+        m = DiameterRequest(command_code=272, application_id=4)
+        m.extend([SessionIdAVP(b"s;1;2"), OriginHostAVP("a.b"), UserNameAVP("u"), UserNameAVP("v")][:2 + build])
+        if not hasattr(m, "copy"):
+            break
+        cp = m.copy()
+        check(cp, "copy()", {"kind": "extra", "case": "copy", "build": build})
+        cp.session_id_avp.data = b"changed;in;the;copy"
+        cp.refresh()
+        cp.pop("origin_host_avp")
+        check(cp, "copy() then a change of the copy", {"kind": "extra", "case": "copy", "build": build})
+        check(m, "the source after its copy() was changed", {"kind": "extra", "case": "copy", "build": build})
+        if m.session_id_avp.data != b"s;1;2" or not m.has_avp("origin_host_avp"):
+            rep.violation("a change made to a copy() reached the source message", {"kind": "extra", "case": "copy", "build": build})
+    rep.notes["extra_histories"] = n
